@@ -31,6 +31,21 @@ type scenario struct {
 	// Fault > 0 (silence scenarios): at that instant the pending read on the connection fails with a passing error
 	// (ICMP error reported on the socket, expired read deadline, interface down).  The schedule is the same.
 	Fault time.Duration `json:"fault,omitempty"`
+	// WFail > 0 (silence scenarios): transmission #WFail-1 fails (expired write deadline, no buffer space, ...): the call
+	// ends there with that error -- a failed transmission is not an elapsed try -- and nothing further is sent
+	WFail int `json:"wfail,omitempty"`
+}
+
+func writeErrOf(k int) error {
+	switch k % 4 {
+	case 0:
+		return &net.OpError{Op: "write", Net: "udp", Err: os.ErrDeadlineExceeded}
+	case 1:
+		return &net.OpError{Op: "write", Net: "udp", Err: os.NewSyscallError("sendto", syscall.ENOBUFS)}
+	case 2:
+		return os.ErrDeadlineExceeded
+	}
+	return &net.OpError{Op: "write", Net: "udp", Err: os.NewSyscallError("sendto", syscall.EPERM)}
 }
 
 func faultErr(k int) error {
@@ -93,6 +108,14 @@ func run(t *testing.T, sc scenario, want []byte, xid uint32) (res result) {
 			defer c3()
 		}
 		defer cancel()
+		if sc.WFail > 0 {
+			conn.WriteErr = func(k int) error {
+				if k == sc.WFail-1 {
+					return writeErrOf(sc.Cfg + sc.Dest)
+				}
+				return nil
+			}
+		}
 		if sc.Accept >= 0 && sc.Off == "inwrite" {
 			// a server that answers at once: the response to transmission #k is read and routed by the receive loop
 			// before the client's WriteTo has returned
@@ -203,6 +226,9 @@ func judge(r *mon.Rec, t *testing.T, sc scenario) {
 	if sc.Accept >= 0 {
 		expWrites = sc.Accept + 1
 	}
+	if sc.WFail > 0 && sc.WFail <= tries {
+		expWrites = sc.WFail
+	}
 	if sc.CtxAt > 0 { // only the transmissions scheduled before the context's deadline
 		expWrites = 0
 		for k := 0; k < tries; k++ {
@@ -235,6 +261,13 @@ func judge(r *mon.Rec, t *testing.T, sc scenario) {
 		return
 	}
 	switch {
+	case sc.WFail > 0 && sc.WFail <= tries:
+		at := sc.T * time.Duration((int64(1)<<uint(sc.WFail-1))-1)
+		if !res.returned || res.err == nil || f.IsNoResponse(res.err) || res.gotMsg || res.retAt != at {
+			bad("write-error", "transmission #%d failed at %v: call returned=%v at %v with err=%v (want that error at that instant; a failed transmission is not an elapsed try)", sc.WFail-1, at, res.returned, res.retAt, res.err)
+			return
+		}
+		r.Count("scenarios_with_a_failing_write", 1)
 	case sc.CtxAt > 0:
 		if !res.returned || res.err != context.DeadlineExceeded || res.retAt != sc.CtxAt {
 			bad("context-deadline", "context deadline at %v: call returned=%v at %v with err=%v (want the context's error at that instant and no further transmission)", sc.CtxAt, res.returned, res.retAt, res.err)
@@ -307,6 +340,13 @@ func grid(quick bool) []scenario {
 					for d := 0; d < len(dests); d++ {
 						for _, dl := range []bool{false, true} {
 							out = append(out, scenario{Fam: fm, T: T, N: n, Accept: -1, Extra: ex, Dest: d, CtxDL: dl, Cfg: len(out) % cli.NCfg})
+							if n != 0 && !dl && d%2 == 0 { // the same with a transmission that fails
+								wf := 1 + len(out)%3
+								if n > 0 && wf > n {
+									wf = n
+								}
+								out = append(out, scenario{Fam: fm, T: T, N: n, Accept: -1, Extra: ex, Dest: d, Cfg: len(out) % cli.NCfg, WFail: wf})
+							}
 							if n != 0 && n != 1 && !dl { // the same with a read fault during try 0 / try 1
 								tf := []time.Duration{T / 3, T + T/2, 1, T - 1}[len(out)%4]
 								out = append(out, scenario{Fam: fm, T: T, N: n, Accept: -1, Extra: ex, Dest: d, Cfg: len(out) % cli.NCfg, Fault: tf})
